@@ -98,7 +98,7 @@ class Gen:
     def __init__(self, tape, *, syntax: Syntax = DEFAULT_SYNTAX, is_async: bool = False,
                  probe: bool = False, allow_module_state: bool = False, loopcontrols: bool = False,
                  max_depth: int = 3, size: int = 6, compile_bias: bool = False,
-                 env_globals: bool = False, stream: str = "w") -> None:
+                 env_globals: bool = False, template_globals: bool = False, stream: str = "w") -> None:
         self.tape = tape
         self.sx = syntax
         self.is_async = is_async
@@ -109,6 +109,7 @@ class Gen:
         self.size = size
         self.compile_bias = compile_bias
         self.env_globals = env_globals  # environment globals gn (int) and gf (callable; awaitable in async mode)
+        self.template_globals = template_globals  # template-level global tg passed to get_template(globals=...)
         self.stream = stream
         self.prog = Program()
         self.uid = 0
@@ -159,6 +160,9 @@ class Gen:
     # -- expressions ---------------------------------------------------------
     # closed scopes: only local names and literals
     def c_int(self, sc: Scope, depth: int) -> str:
+        if self.template_globals and self.chance(1, 6):
+            self.prog.feat("template_global_use")
+            return "(tg|default(0))"
         if self.env_globals and self.chance(1, 4):
             self.prog.feat("env_global_use")
             return "gn" if self.chance(1, 3) else f"gf({self.c_int(sc, depth + 1) if depth < 2 else 1})"
@@ -190,6 +194,9 @@ class Gen:
     def e_int(self, sc: Scope, depth: int = 0) -> str:
         if sc.closed:
             return self.c_int(sc, depth)
+        if self.template_globals and self.chance(1, 12):
+            self.prog.feat("template_global_use")
+            return "(tg|default(0))"
         opts = 12 if depth < 2 else 4
         k = self.d(opts + (3 if self.is_async else 0) + (2 if self.probe else 0))
         if k == 0:
